@@ -26,6 +26,7 @@ from .values import (
     SStr,
     SStub,
     SType,
+    SUndef,
     SUnion,
     Unsupported,
     pytype_name,
@@ -475,6 +476,8 @@ class BuiltinsMixin:
 
     def getitem(self, obj, idx):
         obj = self.resolve(obj)
+        if isinstance(obj, SUndef):
+            return obj
         if isinstance(idx, slice):
             return self.getslice(obj, idx)
         idx = self.resolve(idx)
@@ -565,6 +568,8 @@ class BuiltinsMixin:
         return items[k]
 
     def getslice(self, obj, sl):
+        if self.spec and (obj is None or isinstance(obj, SUndef)):
+            return SUndef()
         parts = [self.resolve(x) for x in (sl.start, sl.stop, sl.step)]
         conc = all(p is None or isinstance(p, int) for p in parts)
         if isinstance(obj, (str, bytes, tuple)) and conc:
